@@ -370,12 +370,17 @@ def plan(tier, seed):
     shards, examples = (8, 400) if tier == 'quick' else (16, 5000)
     for k in range(shards):
         tasks.append({'kind': 'hyp', 'examples': examples, 'seed': seed * 1000 + k})
+    if tier == 'thorough':
+        tasks += [{'kind': 'atheris', 'runs': 6000, 'seed': seed * 100 + k} for k in range(4)]
     return tasks
 
 
 def run(task, ctx):
     if task['kind'] == 'systematic':
         ctx.guarded(systematic_task, task, ctx)
+    elif task['kind'] == 'atheris':
+        from vlib import runner
+        ctx.guarded(runner.atheris_task, ctx, PROPERTY, task['runs'], task['seed'])
     else:
         ctx.hypothesis(lambda pair: run_input(pair[0], ctx, pair[1]), hyp_inputs(), task['examples'], task['seed'])
 
